@@ -2,7 +2,7 @@
     Fair-queue level: for EVERY interleaving of the receiver's critical sections with wakes, inserts,
     removes and arrivals (labels of Model/FairQueue.v), with no assumption on the environment. *)
 From ZV Require Import Base.Bytes Base.Res Model.Codec Model.FairQueue Proofs.FairQueueProofs Proofs.Decoder Proofs.CodecRoundtrip Spec.Stream.
-From ZV Require Model.World Proofs.WorldStreamDefs Proofs.WorldStream.
+From ZV Require Model.World Proofs.WorldStreamDefs Proofs.WorldStream Proofs.CodecEnc Proofs.WorldWire.
 
 (** everything a stream yielded has been returned exactly once, in the stream's order; nothing is
     lost, duplicated or reordered, whatever the schedule *)
@@ -46,3 +46,29 @@ Theorem C05_world_nothing_lost : forall t cs es rs w,
   forall k, In k cs -> WorldStreamDefs.outs_of k rs = WorldStreamDefs.expected (WorldStreamDefs.chunks_of k es) (WorldStreamDefs.closed_of k es).
 Proof. exact WorldStream.world_stream_complete. Qed.
 Print Assumptions C05_world_nothing_lost.
+
+(** end to end over the wire (C01 + C02 + C10 composed with the above): what a PUSH or DEALER socket
+    writes for a sequence of messages ... *)
+Theorem C05_wire_sender : forall t k ms,
+  t = PUSH \/ t = DEALER ->
+  World.run (World.world0 t) (World.OAttach k None :: map World.OSend ms ++ [World.OWire k]) =
+  World.BAtt k None :: repeat World.BSendOk (length ms) ++ [World.BWire k (concat (map encode_frames ms))].
+Proof. exact WorldWire.push_writes_encodings. Qed.
+Print Assumptions C05_wire_sender.
+
+(** ... arriving in ANY chunks, comes out of a PULL or DEALER socket's recv as exactly those messages,
+    whole and in order, and one more recv finds nothing; a ROUTER labels each with the sender *)
+Theorem C05_wire_receiver : forall t k ms chunks,
+  t = PULL \/ t = DEALER ->
+  Forall CodecEnc.wf_msg ms -> concat chunks = concat (map encode_frames ms) ->
+  World.run (World.world0 t) (World.OAttach k None :: map (World.OFeed k) chunks ++ repeat World.ORecv (S (length ms))) =
+  World.BAtt k None :: map (World.BRecv None) ms ++ [World.BRecvPending].
+Proof. exact WorldWire.pull_reads_messages. Qed.
+Print Assumptions C05_wire_receiver.
+
+Theorem C05_wire_receiver_router : forall k ms chunks,
+  Forall CodecEnc.wf_msg ms -> concat chunks = concat (map encode_frames ms) ->
+  World.run (World.world0 ROUTER) (World.OAttach k None :: map (World.OFeed k) chunks ++ repeat World.ORecv (S (length ms))) =
+  World.BAtt k None :: map (World.BRecv (Some k)) ms ++ [World.BRecvPending].
+Proof. exact WorldWire.router_reads_labelled_messages. Qed.
+Print Assumptions C05_wire_receiver_router.
